@@ -191,7 +191,7 @@ func init() {
 				if failed {
 					w.Nontrivial(h)
 				}
-				if w.Evals%30011 == 0 {
+				if w.Evals%30011 == 1 {
 					w.Sample(map[string]any{"family": family, "note": cs.Note, "fork": cs.ForkName})
 				}
 			})
